@@ -149,15 +149,31 @@ pub fn visit_events(args: &Args) {
                 w.visit_document_mut(&mut d3);
                 rewritten.insert(kind.to_string(), cps(&d3.to_string()));
             }
-            (l.events, lm.log.events, unchanged, rewritten)
+            // the same walks on a copy in which mutable indexing has left a placeholder in every standard table:
+            // placeholders are entries for nobody, the logs must not change
+            struct Touch;
+            impl VisitMut for Touch {
+                fn visit_table_mut(&mut self, node: &mut Table) {
+                    let _ = &mut node["\u{7f}ghost"];
+                    toml_edit::visit_mut::visit_table_mut(self, node);
+                }
+            }
+            let mut d4 = doc.clone();
+            Touch.visit_document_mut(&mut d4);
+            let mut lt = Log::default();
+            lt.visit_document(&d4);
+            let mut lmt = LogMut::default();
+            lmt.visit_document_mut(&mut d4);
+            (l.events, lm.log.events, unchanged, rewritten, lt.events, lmt.log.events)
         }));
         match res {
-            Ok((log, logmut, unchanged, rewritten)) => {
+            Ok((log, logmut, unchanged, rewritten, log_t, logmut_t)) => {
                 writeln!(out, "{}", json!({"ev": "visit", "id": r["id"], "text": r["text"], "res": "ok", "log": log, "logmut": logmut,
+                                           "log_touched": log_t, "logmut_touched": logmut_t,
                                            "unchanged": unchanged, "rewritten": rewritten})).unwrap();
             }
             Err(_) => {
-                writeln!(out, "{}", json!({"ev": "visit", "id": r["id"], "text": r["text"], "res": "panic", "log": [], "logmut": [],
+                writeln!(out, "{}", json!({"ev": "visit", "id": r["id"], "text": r["text"], "res": "panic", "log": [], "logmut": [], "log_touched": [], "logmut_touched": [],
                                            "unchanged": false, "rewritten": {"integer": [], "string": [], "float": []}})).unwrap();
             }
         }
